@@ -231,6 +231,8 @@ class Locality:
         pb.reset_globals()
         self.global_step = 0.5
         self.calcs = []   # (calculator, expected step)
+        self.cfg_objs = {}
+        self.cfg_snap = {}
         self.set_between = False
         self.created_after_set = False
 
@@ -282,7 +284,17 @@ class Locality:
             self.global_step = 0.5
             self.set_between = bool(self.calcs)
         elif name == "new_calc":
-            if a["explicit"] is None:
+            if a.get("reuse") is not None and a["explicit"] is None:
+                # the caller keeps one settings dict and hands the same object to several calculators
+                key = a["reuse"] % 2
+                if key not in self.cfg_objs:
+                    self.cfg_objs[key] = ({"cMinimumVelocity": 10.0} if key else {"cGravityConstant": -32.0})
+                    self.cfg_snap[key] = dict(self.cfg_objs[key])
+                self.calcs.append((pb.Calculator(_config=self.cfg_objs[key]), self.global_step))
+                if self.cfg_objs[key] != self.cfg_snap[key]:
+                    r.bad("C18:locality:caller-settings-dict-mutated", f"creating a calculator changed the caller's settings dict to {self.cfg_objs[key]}")
+                    self.cfg_objs[key] = dict(self.cfg_snap[key])
+            elif a["explicit"] is None:
                 self.calcs.append((pb.Calculator(_config=dict(a["other"])) if a["other"] else pb.Calculator(), self.global_step))
             else:
                 self.calcs.append((pb.Calculator(_config=dict(a["other"], max_calc_step_size_feet=a["explicit"])), a["explicit"]))
@@ -318,7 +330,7 @@ LOC_RULES = {
                                          "unit": st.one_of(st.none(), st.sampled_from(ref.UNITS_BY_DIM["distance"]))}),
     "set_invalid": st.fixed_dictionaries({"ft": st.one_of(st.just(0.0), st.floats(-10.0, 0.0), st.just(-0.0)), "explicit": st.booleans()}),
     "reset": st.just({}),
-    "new_calc": st.fixed_dictionaries({"explicit": st.one_of(st.none(), st.floats(0.1, 6.0)),
+    "new_calc": st.fixed_dictionaries({"reuse": st.one_of(st.none(), st.integers(0, 1)), "explicit": st.one_of(st.none(), st.floats(0.1, 6.0)),
                                        "other": st.sampled_from([{}, {}, {"cMinimumVelocity": 10.0}, {"cGravityConstant": -30.0}])}),
     "probe": st.fixed_dictionaries({"k": st.integers(0, 4)}),
 }
